@@ -1082,6 +1082,8 @@ func (in *Interp) Try(f func()) (err error) {
 			}
 			in.frames = nil
 			in.logs = nil
+			in.ctl = nil
+			in.ctlBase = 0
 			in.depth = 0
 		}
 	}()
